@@ -131,10 +131,10 @@ theorem run_spec {load : Nat → Load} {rb : St → Nat → St × RB} (h : RBGoo
       simp only [run, List.getElem?_cons_succ] at hres
       exact ih (step rb st o).1 hs.1 k b i r hop hres
 
-/-- the code's order is good when failed attempts do not disturb the buffers -/
-theorem readBlock_good {load : Nat → Load} (hk : FailKeeps load) : RBGood load (readBlock load) := by
+/-- the old code's order was good only when failed attempts did not disturb the buffers -/
+theorem readBlockOld_good {load : Nat → Load} (hk : FailKeeps load) : RBGood load (readBlockOld load) := by
   intro st b hi
-  unfold readBlock
+  unfold readBlockOld
   cases hl : load b with
   | absent => exact hi
   | fail cl =>
@@ -143,16 +143,16 @@ theorem readBlock_good {load : Nat → Load} (hk : FailKeeps load) : RBGood load
     exact ⟨c, hc, by simp [hk b cl hl, hb]⟩
   | ok c => exact ⟨rfl, rfl, c, rfl, rfl⟩
 
-/-- the repaired order is good for every load function -/
-theorem readBlockFixed_good (load : Nat → Load) : RBGood load (readBlockFixed load) := by
+/-- the code as it is (a failed load forgets the loaded block) is good for every load function -/
+theorem readBlock_good (load : Nat → Load) : RBGood load (readBlock load) := by
   intro st b hi
-  unfold readBlockFixed
+  unfold readBlock
   cases hl : load b with
   | absent => exact hi
   | fail cl => intro hld; simp at hld
   | ok c => exact ⟨rfl, rfl, c, rfl, rfl⟩
 
-/-! ### the guarded statement for the code as it is (buffers may be clobbered) -/
+/-! ### the guarded statement for the OLD readBlock (buffers may be clobbered, state not reset) -/
 
 /-- invariant with the taint flag: an UNTAINTED loaded reader serves the block it records -/
 def InvT (load : Nat → Load) (st : St) (t : Bool) : Prop :=
@@ -160,7 +160,7 @@ def InvT (load : Nat → Load) (st : St) (t : Bool) : Prop :=
 
 theorem guarded_run (load : Nat → Load) :
     ∀ (ops : List Op) (st : St) (t : Bool), InvT load st t → noStaleReturn load st t ops = true →
-      ServesOnlyRequestedBlock (readBlock load) load st ops := by
+      ServesOnlyRequestedBlock (readBlockOld load) load st ops := by
   intro ops
   induction ops with
   | nil =>
@@ -187,7 +187,7 @@ theorem guarded_run (load : Nat → Load) :
       obtain ⟨c, hload, hbuf⟩ := hi hl rfl
       have hcond : (!st.loaded || st.curr != o.block) = false := by simp [hl, hc]
       -- the step leaves the state alone
-      have hst : (step (readBlock load) st o).1 = st := by
+      have hst : (step (readBlockOld load) st o).1 = st := by
         cases o with
         | ld b0 => simp only [Op.block] at hcond; simp [step, validate, hcond]
         | pr b0 => simp only [Op.block] at hcond; simp [step, probe, hcond]
@@ -211,7 +211,7 @@ theorem guarded_run (load : Nat → Load) :
       | succ k =>
         simp only [List.getElem?_cons_succ] at hop
         simp only [run, List.getElem?_cons_succ] at hres
-        refine ih (step (readBlock load) st o).1 false ?_ hg k b i r hop hres
+        refine ih (step (readBlockOld load) st o).1 false ?_ hg k b i r hop hres
         rw [hst]; exact hi
     · -- a load is attempted
       simp only [hskip, Bool.false_eq_true, if_false] at hg
@@ -223,7 +223,7 @@ theorem guarded_run (load : Nat → Load) :
       cases hl : load o.block with
       | absent =>
         rw [hl] at hg
-        have hrb : readBlock load st o.block = (st, .invalid) := by simp [readBlock, hl]
+        have hrb : readBlockOld load st o.block = (st, .invalid) := by simp [readBlockOld, hl]
         cases k with
         | zero =>
           simp only [List.getElem?_cons_zero, Option.some.injEq] at hop
@@ -247,7 +247,7 @@ theorem guarded_run (load : Nat → Load) :
             intro hld; simp [step, validate, hcond, hrb] at hld
       | fail cl =>
         rw [hl] at hg
-        have hrb : readBlock load st o.block = ({ st with buf := cl st.buf }, .err) := by simp [readBlock, hl]
+        have hrb : readBlockOld load st o.block = ({ st with buf := cl st.buf }, .err) := by simp [readBlockOld, hl]
         cases k with
         | zero =>
           simp only [List.getElem?_cons_zero, Option.some.injEq] at hop
@@ -262,8 +262,8 @@ theorem guarded_run (load : Nat → Load) :
           intro _ ht; simp at ht
       | ok c =>
         rw [hl] at hg
-        have hrb : readBlock load st o.block = ({ curr := o.block, loaded := true, buf := c }, .ok) := by
-          simp [readBlock, hl]
+        have hrb : readBlockOld load st o.block = ({ curr := o.block, loaded := true, buf := c }, .ok) := by
+          simp [readBlockOld, hl]
         cases k with
         | zero =>
           simp only [List.getElem?_cons_zero, Option.some.injEq] at hop
@@ -281,7 +281,7 @@ theorem guarded_run (load : Nat → Load) :
           simp only [List.getElem?_cons_succ] at hop
           simp only [run, List.getElem?_cons_succ] at hres
           refine ih _ false ?_ hg k b i r hop hres
-          have hst : (step (readBlock load) st o).1 = { curr := o.block, loaded := true, buf := c } := by
+          have hst : (step (readBlockOld load) st o).1 = { curr := o.block, loaded := true, buf := c } := by
             cases o with
             | ld b0 => simp only [Op.block] at hcond hrb ⊢; simp [step, validate, hcond, hrb]
             | pr b0 => simp only [Op.block] at hcond hrb ⊢; simp [step, probe, hcond, hrb]
